@@ -309,3 +309,6 @@ func c17RingExec(c c17RingCase) kit.Outcome {
 func TestC17Ring(t *testing.T) {
 	kit.Check(t, "C17", "TestC17Ring", c17RingGen, c17RingExec)
 }
+
+// FuzzC17Ring: the same generator and oracle as TestC17Ring under Go's coverage-guided fuzzer (thorough tier).
+func FuzzC17Ring(f *testing.F) { kit.FuzzOf(f, "C17", "TestC17Ring", c17RingGen, c17RingExec) }
